@@ -29,6 +29,19 @@ def _define(name, version):
     return mf
 
 
+def _plain_f(x):
+    return x
+
+
+_plain_f.__name__ = _plain_f.__qualname__ = "f"
+_plain_f.__module__ = MOD_NAME
+
+
+def F_IN_CLUSTER(cluster_name):
+    """The same function f declared in a (possibly symbolic) named cluster; not registered."""
+    return m.MementoFunction(_plain_f, cluster_name=cluster_name, version="1", auto_dependencies=False, register_fn=False)
+
+
 F = _define("f", "1")
 FF = _define("ff", "1")
 
